@@ -138,6 +138,35 @@ def url_summaries():
             return [(st, mk_option(it.items[it.pos - 1]))]
         return [(st, mk_option())]
 
+    def any_step(ex, st, itref, clo, kind):
+        it = deref(ex, st, itref)
+        if it.pos >= len(it.items):
+            return [(st, Bool(z3.BoolVal(kind == 'all')))]
+        it.pos += 1
+        item = it.items[it.pos - 1]
+        def post(ex_, st_, rv, itref=itref, clo=clo):
+            return ('REDISPATCH', f'__verif::url_{kind}_after', [rv, itref, clo])
+        return [(st, ('CALL', clo, [item], ('custom', post)))]
+
+    @reg(r' as Iterator>::(any|all)::<')
+    def it_any(ex, st, fn, argv):
+        """short-circuiting any / all over the remaining items, the closure executed from MIR on each"""
+        it = deref(ex, st, argv[0])
+        if not isinstance(it, Iter):
+            return NotImplemented
+        return any_step(ex, st, argv[0], argv[1], 'any' if '>::any::<' in fn else 'all')
+
+    @reg(r'^__verif::url_(any|all)_after$')
+    def it_any_after(ex, st, fn, argv):
+        kind = 'any' if '_any_' in fn else 'all'
+        outs = []
+        for (s, c, truth) in ex.fork_on(st, argv[0].b, (argv[1], argv[2])):
+            if truth == (kind == 'any'):
+                outs.append((s, Bool(z3.BoolVal(kind == 'any'))))
+            else:
+                outs += any_step(ex, s, c[0], c[1], kind)
+        return outs
+
     @reg(r'^<Url as Clone>::clone$')
     def url_clone(ex, st, fn, argv):
         return [(st, Agg({}, 'UrlCopy', 'url-copy'))]
